@@ -133,7 +133,7 @@ func cmdHarness(args []string) {
 	t1 := time.Now()
 	res := w.Explore(fn, hargs)
 	fmt.Printf("explored %s: paths=%d steps=%d status=%v in %v (solver: %d queries, %v)\n", res.Name(), res.Paths, res.Steps, res.Status, time.Since(t1), w.S.Queries, w.S.Time)
-	for _, v := range res.Violations {
+	for vi, v := range res.Violations {
 		fmt.Printf("VIOLATED %s (known=%q) tape values=%d site=%s msg=%s\n", v.Label, v.InKnown, len(v.Tape.Values), v.Site, v.Msg)
 		n := 0
 		for _, tv := range v.Tape.Values {
@@ -143,6 +143,10 @@ func cmdHarness(args []string) {
 			}
 		}
 		fmt.Println()
+		if dd := os.Getenv("VTAPEDIR"); dd != "" {
+			os.MkdirAll(dd, 0o755)
+			writeJSON(filepath.Join(dd, fmt.Sprintf("v%d.json", vi)), v.Tape)
+		}
 	}
 	for _, s := range res.Inconcl {
 		fmt.Println("INCONCLUSIVE:", s)
